@@ -58,11 +58,13 @@ type c08Cell struct {
 
 var c08Cells = []c08Cell{
 	{"VARCHAR", "str"}, {"CHAR", "str"}, {"TEXT", "str"}, {"TINYTEXT", "str"}, {"JSON", "str"},
-	{"INT", "int"}, {"MEDIUMINT", "int"}, {"SMALLINT", "int"}, {"TINYINT", "int"}, {"BIGINT", "int"}, {"BIT", "int"},
+	{"INT", "int"}, {"MEDIUMINT", "int"}, {"SMALLINT", "int"}, {"TINYINT", "int"}, {"BIGINT", "int"},
 	{"DOUBLE", "float"}, {"DECIMAL", "float"}, {"FLOAT", "float"},
 	{"DATE", "time"}, {"DATETIME", "time"}, {"TIMESTAMP", "time"},
 	{"BLOB", "bytes"}, {"TINYBLOB", "bytes"}, {"MEDIUMBLOB", "bytes"}, {"VARBINARY", "bytes"}, {"BINARY", "bytes"},
-	{"MEDIUMTEXT", "bytes"}, {"LONGTEXT", "bytes"}, {"ENUM", "bytes"}, {"SET", "bytes"},
+	{"LONGBLOB", "bytes"}, {"BIT", "bytes"},
+	// read as texts by the image scanner since cc35a42 (byte slices before)
+	{"MEDIUMTEXT", "str"}, {"LONGTEXT", "str"}, {"ENUM", "str"}, {"SET", "str"},
 }
 
 type c08Val struct {
